@@ -18,7 +18,7 @@ import (
 
 func c12Gen(t *rapid.T, r *h.Rec) specCase {
 	av, onEx, onCl := avoidOpts(r)
-	o := &synth.Opts{Avoid: av, OnExclude: onEx, OnClass: onCl, SubPkgs: true, SameNamePkgs: true, Diamonds: true, RecursiveUnions: true, ForeignUnions: true, ZeroArrays: true, NamedRecursion: true, StdNamedPkgs: true, ShortModule: true, Spelling: true, Unions: 1, Generics: true, Aliases: true,
+	o := &synth.Opts{Avoid: av, OnExclude: onEx, OnClass: onCl, SubPkgs: true, SameNamePkgs: true, Diamonds: true, RecursiveUnions: true, ForeignUnions: true, ZeroArrays: true, NamedRecursion: true, StdNamedPkgs: true, ShortModule: true, Spelling: true, Unions: 1, Generics: true, NestedGenerics: true, Aliases: true,
 		Recursion: true, Embedded: true, StdTypes: true, FixedArrays: true, Maps: true, Times: true, Pointers: true, RareBasics: true, TagVariety: true,
 		EnumStress: false, MaxDecls: 10, MinDecls: 2}
 	return specCase{Spec: synth.GenTypes(t, o)}
